@@ -68,6 +68,16 @@ def run(ctx):
     jobs.append({'seeds': ['CC'], 'rules': same_name[:2], 'timeout': 300})
     jobs.append({'seeds': ['CC'], 'rules': same_name[1::-1], 'timeout': 300})
     jobs.append({'seeds': ['CCO'], 'rules': same_name, 'timeout': 300})
+    # seeds with an atom above its default valence that the rule does not touch (the valence filter looks at every atom of a product)
+    for seeds, rules in ((['CS(C)=O'], [SMARTS[0]]), (['C[N+](=O)[O-]'], [SMARTS[0]]), (['CC[NH3+]'], [SMARTS[0], SMARTS[1]]), (['CS(C)=O'], [RING[0]])):
+        jobs.append({'seeds': seeds, 'rules': rules, 'timeout': 300})
+    # a symmetric reactant pattern with an asymmetric edit: both mirror-image embeddings count
+    ASYM = ['rule b3{ reactant r{ C? labeled x1 C? labeled x2 single bond to x1 C? labeled x3 single bond to x2} break bond (x1,x2) '
+            'increase number of radical (x1) increase number of radical (x2)}',
+            'rule b3o{ reactant r{ C? labeled x1 O? labeled x2 single bond to x1 C? labeled x3 single bond to x2} break bond (x1,x2) '
+            'increase number of radical (x1) increase number of radical (x2)}']
+    for seeds, rules in ((['CCCO'], [ASYM[0]]), (['CCOC'], [ASYM[1]]), (['CC(C)CO'], [ASYM[0]]), (['CCC'], [ASYM[0]]), (['CCCC=O'], [ASYM[0]])):
+        jobs.append({'seeds': seeds, 'rules': rules, 'timeout': 300})
     # a network generated after another one in the same process, the same species written with another atom order
     for warm, seeds, rules in ((['CCO'], ['OCC'], [RING[1]]), (['CO'], ['OC'], [RING[0]]), (['CC=C'], ['C=CC'], [RING[0], RING[1]]),
                                (['CCO'], ['C(O)C'], [RING[3], RING[2]]), (['OCC'], ['CCO'], [SMARTS[1], SMARTS[3]]), (['CCC'], ['CC'], [RING[0]])):
